@@ -36,6 +36,9 @@ func TestVerifReplay(t *testing.T) {
 		vfsReset()
 		pmsg, vac := vhRunNative(fn)
 		fmt.Printf("VERIF-RESULT file=%s failures=[%s] vacuous=%v panic=%q\n", f, strings.Join(vFailures, ","), vac, pmsg)
+		if rf.Label == "selfval" {
+			fmt.Printf("VERIF-ASSERTS file=%s [%s]\n", f, strings.Join(vAsserts, ","))
+		}
 		if os.Getenv("VERIF_REPLAY_OBS") != "" {
 			for _, o := range vObs {
 				fmt.Printf("VERIF-OBS file=%s %s\n", f, o)
